@@ -122,7 +122,10 @@ def judge(pre, op, post, res, obs, meta):
     # (2b) the history at the command's root is always touched: a run that ends with one of the result codes has added its manifest
     # there (also when nothing recordable is left in the folder, or everything is excluded)
     R = op[1].get("root") or ""
-    if res.exc is None and res.exit in (0, 10, 11):
+    named = op[1].get("sf") or []
+    med_pre = ref.media(pre)
+    nothing_named = bool(named) and not any(q == x or q.startswith(x + "/") for x in named for q, c in med_pre.items() if c is not DIR)
+    if res.exc is None and res.exit in (0, 10, 11) and not nothing_named:   # (-sf of an empty folder names nothing: no history is touched)
         n_new = len([g for g in ref.generations(post, R) if g["path"] not in pre])
         if n_new == 0:
             V("no-generation-at-root", f"{ops.label(op)} (exit {res.exit}): the history of '{R or '.'}' received no new manifest",
